@@ -106,9 +106,23 @@ def keyConsistentB (doc : Doc) : Bool :=
   let fs := docFields doc
   fs.all fun a => fs.all fun b => a.1 != b.1 || (a.2.1 == b.2.1)
 
+mutual
+def selDirs : Sel → List Dir
+  | .field _ _ _ dirs _ _ sub => dirs ++ selsDirs sub
+  | .inline _ dirs sub => dirs ++ selsDirs sub
+  | .spread _ dirs => dirs
+def selsDirs : List Sel → List Dir
+  | [] => []
+  | x :: xs => selDirs x ++ selsDirs xs
+end
+
+def docDirs (doc : Doc) : List Dir :=
+  (doc.ops.flatMap fun o => selsDirs o.sels) ++ (doc.frags.flatMap fun f => selsDirs f.sels)
+
 /-- why a document is not `ValidDoc` (for reports only) -/
 def validDocWhy (s : SchemaD) (doc : Doc) (vars : Vars) : String :=
-  if !opsOk s doc vars then "operation-selection-ill-typed"
+  if !dirsOk vars (docDirs doc) then "skip-include-condition-not-boolean-literal-or-defined-variable"
+  else if !opsOk s doc vars then "operation-selection-ill-typed"
   else if !fragsOk s doc vars then "fragment-ill-typed"
   else if !fragsAcyclic doc then "fragment-cycle"
   else ""
